@@ -1,6 +1,7 @@
 """Program model over the driver's facts: bodies, CFG algorithms, call graph."""
 import collections
 import os
+import re
 import functools
 
 
@@ -576,6 +577,42 @@ class Program:
         if done:
             self._init(units)
             self.inlined = done
+
+    def owners_of(self, path):
+        """For a library function that did not exist when the rules were reviewed (and that could not be spliced into
+        its callers - it is passed as a function value, recursive, too large): the reviewed functions it is reachable
+        from through such new functions only.  Reviewed tables keyed by function extend to what their function hands
+        work to.  Empty for a reviewed function (it stands for itself)."""
+        strip = lambda p: re.sub(r"(::\{closure#\d+\})+", "", p)  # noqa: E731
+        if not hasattr(self, "_known_fns"):
+            try:
+                from props import strops
+
+                self._known_fns = set(strops.load_table()[1])
+            except Exception:  # noqa: BLE001
+                self._known_fns = None
+        if self._known_fns is None:
+            return set()
+        p0 = strip(path)
+        if p0 in self._known_fns or not p0.startswith(("svgdx::", "<svgdx::")):
+            return set()
+        by_path = {}
+        for b in self.bodies.values():
+            by_path.setdefault(strip(b.path), []).append(b)
+        out, seen, work = set(), {p0}, [p0]
+        while work:
+            q = work.pop()
+            for b in by_path.get(q, ()):
+                for cid in self.redges.get(b.id, ()):
+                    cp = strip(self.bodies[cid].path)
+                    if cp in seen:
+                        continue
+                    seen.add(cp)
+                    if cp in self._known_fns:
+                        out.add(cp)
+                    else:
+                        work.append(cp)
+        return out
 
     def _normalise_renames(self, units):
         # Functions that are recognisably *renamings* of reviewed functions (same module / impl, same callers, the old
